@@ -158,10 +158,22 @@ def oracle(ctx, hints=()):
     kinds = {}
     sample = None
     try:
+        tilt = [ctx.rng.uniform(-10, 10), ctx.rng.uniform(-10, 10)]
+        recent_w = []
         for i in range(ctx.n(300, 60000, boost=10000)):
             e = euler_case(ctx.rng, i)
             r = rod_case(ctx.rng, i)
-            w = [ctx.rng.uniform(-10, 10) for _ in range(3)]
+            # scan-like stream: the tilt pair (chi, wedge) stays fixed for a run of calls while omega varies, then changes --
+            # to a new pair, to an untilted or half-tilted setting (exact zeros), or back to an earlier one
+            u = ctx.rng.random()
+            if u < 0.12:
+                tilt = [ctx.rng.uniform(-10, 10), ctx.rng.uniform(-10, 10)]
+            elif u < 0.20:
+                tilt = [0.0, 0.0]
+            elif u < 0.26:
+                tilt = [ctx.rng.uniform(-1, 1), 0.0] if ctx.rng.random() < 0.5 else [0.0, ctx.rng.uniform(-1, 1)]
+            w = [0.0 if ctx.rng.random() < 0.05 else ctx.rng.uniform(-10, 10)] + list(tilt)
+            recent_w = (recent_w + [list(w)])[-4:]
             U, kind = gens.rotation(ctx.rng)
             kinds[kind] = kinds.get(kind, 0) + 1
             if kind not in ('axis',):
@@ -169,7 +181,10 @@ def oracle(ctx, hints=()):
             sample = sample or {'euler': e, 'rod': r, 'U': U.tolist()}
             for mn, m in _mods():
                 ev += 3
-                viol += check_constructors(mn, m, e, r, w)
+                vc = check_constructors(mn, m, e, r, w)
+                for v in vc:
+                    v['constructor_case'] = {'e': list(e), 'r': list(r), 'recent_w': recent_w}
+                viol += vc
                 viol += check_inverse(mn, m, U)
                 # the Euler stream itself as matrices (exact and near lock)
                 viol += check_inverse(mn, m, m.euler_to_u(*e))
@@ -191,8 +206,14 @@ def replay(payload):
     inp = v['input']
     if isinstance(inp, list) and len(inp) == 3 and isinstance(inp[0], list):
         res = check_inverse(mn, m, np.array(inp))
+    elif v.get('constructor_case'):
+        cc = v['constructor_case']
+        res = []
+        for w in cc['recent_w']:        # the last settings of the scan-like stream, in order (state left by earlier calls matters)
+            res = check_constructors(mn, m, cc['e'], cc['r'], w)
+        res = [x for x in res if x['fn'] == v['fn']]
     else:
         res = [v]
-        print('replay: constructor case, re-run with the stored input through check_constructors')
+        print('replay: constructor case without stored stream')
     print('replay C03 ->', 'VIOLATION' if res else 'holds', res[:1])
     return 1 if res else 0
